@@ -15,6 +15,8 @@ CASES = [
     ("F8", "U", "cap2", "C08", {"Period": 4}), ("F13", "U", "cap_weight2", "C15", {}),
     ("F5", "S", "s_cap1", "C10", {}), ("F6", "S", "s_cap2_tti", "C03", {}), ("F9", "S", "s_cap2_w", "C10", {}),
     ("F10", "S", "s_cap1_ttl", "C03", {}), ("F12", "S", "s_cap1_ttl", "C03", {"depth": 7}), ("F7", "S", "s_cap1", "C10", {}),
+    # the shortest history is nine calls long (it was found by the thorough depth of this slice)
+    ("F14", "S", "s_cap1", "C03", {"depth": 9}),
 ]
 
 
